@@ -29,7 +29,7 @@ def units(bins, tier, seed):
     for i in range(shards):
         us.append(Unit("c15_codecs.enum%d" % i, [b], env={"C15_MODE": "enum", "C15_STRIDE": shards, "C15_OFFSET": i,
                                                             "C15_B64_LEN": 3 if tier == "thorough" or True else 2}, group="enum"))
-    n = 3000 if tier == "quick" else 60000
+    n = 3000 if tier == "quick" else 20000    # (60000 took over an hour of wall time per unit under ASan on a loaded machine)
     nr = 4 if tier == "quick" else 12
     for i in range(nr):
         us.append(Unit("c15_codecs.rc%d" % i, [b], env={"C15_MODE": "rc", "RC_PARAMS": rc_params(seed * 1000 + i, n, 200)}, group="random"))
